@@ -252,6 +252,25 @@ func checkPlan(w *out.W, d dplan) {
 			w.Count(d.src + ":irreversible")
 		}
 	}
+	// ---- reverse skeleton (planner plans of all dialects): the reverse touches what the Cmd touches
+	if d.planner {
+		for i, c := range p.Changes {
+			if len(revs[i]) == 0 {
+				continue
+			}
+			v, msg := checkInverse(c.Cmd, revs[i])
+			w.Count("skeleton-" + v)
+			if v == "skip" {
+				w.Count("skeleton-skip:" + d.src + ":" + cmdKind(c.Cmd))
+			}
+			if v == "attr" {
+				w.Violation(d.id, "reverse-skeleton-table-attr", fmt.Sprintf("%s: %s | Cmd %q | reverse %q | %s", d.src, msg, trunc(c.Cmd, 300), revs[i], d.desc))
+			}
+			if v == "bad" {
+				w.Violation(d.id, "reverse-skeleton", fmt.Sprintf("%s: %s | Cmd %q | reverse %q | %s", d.src, msg, trunc(c.Cmd, 300), revs[i], d.desc))
+			}
+		}
+	}
 	// ---- expected sections
 	var up, down []string
 	for _, c := range p.Changes {
